@@ -53,7 +53,7 @@ def payloads(cls, tier, rnd, accepted_only=False):
         if n == L:
             for pos in range(n):                       # every octet value in every position, the other octets zero / 0x41 / random
                 for a in range(256):
-                    if quick and a not in EDGE and a % 8:
+                    if quick and n > 8 and a not in EDGE and a % 8:
                         continue
                     yield DPTArray(tuple(a if i == pos else 0 for i in range(n)))
                     yield DPTArray(tuple(a if i == pos else 0x41 for i in range(n)))
@@ -249,6 +249,10 @@ def num_family(cls):
     return "fix"
 
 
+# KNX 03/07/02: DPT 17.001 scene number - the wire carries 0..63, xknx (as ETS) presents 1..64
+WIRE_OFFSET = {"DPTSceneNumber": 1}
+
+
 def to_py(fr: Fraction):
     return int(fr) if fr.denominator == 1 else float(fr)
 
@@ -280,7 +284,8 @@ def num_case_small(cls, fam, U, res, v_u, eps):
     value = to_py(given)
     lo, hi = Fraction(str(cls.value_min)) / unit, Fraction(str(cls.value_max)) / unit
     r = {"t": "num", "cls": cls.__name__, "fam": fam, "U": U, "v": v_u, "eps": eps, "lo": int(lo), "hi": int(hi), "out": "conv", "raw": 0,
-         "plen": 0, "dlen": cls.payload_length, "dec": "na", "decok": 0}
+         "plen": 0, "dlen": cls.payload_length, "dec": "na", "decok": 0, "decv": 0,
+         "woff": WIRE_OFFSET.get(cls.__name__, 0)}
     if lo.denominator != 1 or hi.denominator != 1:
         raise MachineryError(f"{cls.__name__}: declared range is not a whole number of units")
     out, p = encode(cls, value)
@@ -307,6 +312,9 @@ def plan_small(cls, fam, tier, rnd):
     quick = tier == "quick"
     res = Fraction(str(cls.resolution))
     U = 2 if fam == "f16" else 1000
+    cap = 2**31 // (4 if fam == "fix" else 600)
+    while fam != "f16" and U > 2 and max(abs(Fraction(str(cls.value_min))), abs(Fraction(str(cls.value_max)))) / res * U * 2 >= cap:
+        U = {1000: 100, 100: 10, 10: 2}[U]
     lo, hi = Fraction(str(cls.value_min)) / res * U, Fraction(str(cls.value_max)) / res * U
     lo, hi = int(lo), int(hi)
     out = set()
@@ -339,7 +347,7 @@ def plan_small(cls, fam, tier, rnd):
             for d, eps in ((U // 2, 0), (0, -1), (0, 1), (U // 2, -1), (U // 2, 1), (U - 1, 0), (1, 0), (U // 4, 0), (3 * U // 4, 0)):
                 if k < n or d == 0:
                     out.add((lo + k * U + d, eps))
-        for d in (1, U // 2, U, 2 * U, 10 * U, 1000 * U):      # beyond the declared range
+        for d in (1, U // 2, U, 2 * U, 10 * U, 1000 * U, (hi - lo) // 2, hi - lo):      # beyond the declared range
             for eps in (0, 1, -1):
                 out.add((lo - d, eps))
                 out.add((hi + d, eps))
@@ -350,20 +358,26 @@ def plan_small(cls, fam, tier, rnd):
                 lo_i, hi_i = math.ceil(Fraction(lo) / one), math.floor(Fraction(hi) / one)
                 for i in range(lo_i, hi_i + 1, 1 if (hi_i - lo_i) < 3000 or not quick else 37):
                     out.add((int(i * one), 0))
-        out = {(v, e) for v, e in out if abs(v) < 2**31 // 300}
+        out = {(v, e) for v, e in out if abs(v) < cap}
     return U, res, sorted(out)
 
 
 def ulp32_ok(v, v2):
-    """v2 is one of the two binary32 neighbours of v"""
+    """|v2 - v| is less than the spacing of binary32 numbers at v"""
     try:
         a = struct.unpack(">f", struct.pack(">f", v))[0]
     except (OverflowError, struct.error):
         return False
-    if a == v2:
+    if a == v2 or v == v2:
         return True
+    if not math.isfinite(a) or not math.isfinite(v2):
+        return False
     bits = struct.unpack(">I", struct.pack(">f", a))[0]
-    return any(struct.unpack(">f", struct.pack(">I", (bits + d) & 0xFFFFFFFF))[0] == v2 for d in (1, -1))
+    nb = [struct.unpack(">f", struct.pack(">I", (bits + d) & 0xFFFFFFFF))[0] for d in (1, -1)]
+    ulp = max(abs(x - a) for x in nb if math.isfinite(x))
+    # DPT 14 decodes to seven significant digits (as the ETS group monitor shows them): one step is the coarser of the two grids
+    unit7 = Fraction(10) ** (math.ceil(math.log10(abs(v))) - 7) if v else Fraction(0)
+    return abs(Fraction(v2) - Fraction(v)) < max(Fraction(ulp), unit7)
 
 
 def run09(ck):
@@ -416,7 +430,7 @@ def run09(ck):
             outs = [math.nextafter(hi, math.inf) if hi < 1e308 else math.inf, math.nextafter(lo, -math.inf) if lo > -1e308 else -math.inf,
                     hi * 1.0001 if hi > 0 else 1.0, lo * 1.0001 if lo < 0 else -1.0, 3.5e38, -3.5e38, 1e39, math.inf, -math.inf]
             for value in vals + outs + [math.nan]:
-                zone = "nan" if math.isnan(value) else "in" if lo <= value <= hi else "out"
+                zone = "nan" if math.isnan(value) else "out" if not lo <= value <= hi else "unrep" if math.isfinite(value) and abs(value) > f32max else "in"
                 r = {"t": "num", "cls": cls.__name__, "fam": "f32", "zone": zone, "out": "conv", "plen": 0, "dlen": cls.payload_length, "dec": "na", "decok": 0}
                 out, p = encode(cls, value)
                 r["out"] = out
@@ -444,11 +458,13 @@ def run09(ck):
         ck.violation(key, f"numeric datapoint: {ex[idx]} -> {json.dumps({k: v for k, v in r.items() if k not in ('t', 'cls')})} ({len(idxs)} such cases, e.g. also {ex[idxs[-1]]})",
                      {"record": r, "example": ex[idx], "more": [ex[i] for i in idxs[1:6]]})
     ok = [r for r in recs if r["out"] == "ok" and r.get("decok") == 1]
-    muts = [dict(r, raw=r["raw"] + 1 if r["raw"] < 60000 else r["raw"] - 1) for r in ok if r["fam"] == "fix" and r["eps"] == 0 and r["v"] % r["U"] == 0][:10] + \
-           [dict(r, raw=(r["raw"] + 3) % 2048 + (r["raw"] // 2048) * 2048) for r in ok if r["fam"] == "f16" and r["v"] % r["U"] == 0][:10] + \
-           [dict(r, out="conv") for r in ok[:5]] + [dict(r, dec="refused") for r in ok[:5]] + [dict(r, plen=r["plen"] + 1) for r in ok[:5]] + \
-           [dict(r, out="ok", plen=r["dlen"], dec="ok", decok=1) for r in recs if r["out"] == "conv" and r["fam"] in ("big", "f32")][:10] + \
-           [dict(r, rawoff=2) for r in ok if r["fam"] == "big"][:5]
+    inside = [r for r in ok if ("lo" in r and r["lo"] < r["v"] < r["hi"]) or r.get("anchor") == "in" or r.get("zone") == "in"]
+    far = [r for r in recs if r["out"] == "conv" and ((r["fam"] == "big" and (r["off"] <= -2 if r["anchor"] == "min" else r["off"] >= 1)) or r.get("zone") == "out")]
+    muts = [dict(r, raw=r["raw"] + 1 if r["raw"] < 200 else r["raw"] - 1) for r in inside if r["fam"] == "fix" and r["eps"] == 0 and r["v"] % r["U"] == 0][:10] + \
+           [dict(r, raw=(r["raw"] + 3) % 2048 + (r["raw"] // 2048) * 2048) for r in inside if r["fam"] == "f16" and r["v"] % r["U"] == 0][:10] + \
+           [dict(r, out="conv") for r in inside[:5]] + [dict(r, dec="refused") for r in inside[:5]] + [dict(r, plen=r["plen"] + 1) for r in inside[:5]] + \
+           [dict(r, out="ok", plen=r["dlen"], dec="ok", decok=1) for r in far][:10] + \
+           [dict(r, rawoff=2) for r in inside if r["fam"] == "big"][:5]
     ck.add(evaluations=len(recs), classes=len(numeric_classes()), classes_per_family=per_family, distinct_nontrivial=len({(r["cls"], r["out"], r.get("raw", r.get("rawoff"))) for r in recs}),
            accepted=len(ok), refused=sum(1 for r in recs if r["out"] == "conv"), selftest_corrupted_rejected=selftest(ck, muts), rule="distinct = (class, outcome, payload)")
     ck.sample({"record": recs[5], "example": ex[5]})
